@@ -23,7 +23,8 @@ class Opt:
                  ode15smaxit=4,
                  normcontrol=False,
                  numJac=False,
-                 max_it=100):
+                 max_it=100,
+                 min_it=0):
         self.atol = atol
         self.rtol = rtol
         self.f_savety = f_savety
@@ -45,3 +46,4 @@ class Opt:
         self.normcontrol = normcontrol
         self.numJac = numJac
         self.max_it = max_it
+        self.min_it = min_it  # least number of Newton iterations, even if the start value meets ite_tol
